@@ -52,8 +52,10 @@ CFG = {'module': 'Dnp3.Props.C01',
                   'object-header walk, lazy iterators and the outstation session, tied to the code by the '
                   'regenerated tables and by the differential engines link, transport, parse, outstation '
                   '(properties C06-C09, C12)',
-                  'the database component behind the `Db` interface is treated as opaque by every C01 '
-                  'theorem',
+                  'the database component behind the `Db` interface is treated as opaque by the session-level '
+                  'C01 theorems; the one database fact they need (exact counters, hence no underflow in '
+                  'unwritten_classes) is the database model\'s counters_exact (tied by engines db / '
+                  'outstationdb, properties C03 / C13)',
                   'harness/src/eng_rawbytes.rs (reference framer, reference CRC, D1/D2/D3 cause predicates, '
                   'probe) and hooks/trace_sink.rs (formatting tracing subscriber; observation only)'],
  'assumptions': ['role master: search only (engine master, monitors no_panic / no_spin on the real '
@@ -70,13 +72,15 @@ CFG = {'module': 'Dnp3.Props.C01',
                'transport read / drain loops never depend on their fuel (progress per iteration: no spin) '
                'and keep their buffer invariants (the slice indexing and expects of link/reader.rs and '
                'transport/real/assembler.rs cannot fail); every accepted object header consumes >= 3 octets; '
-               'the lazy iterators cannot overflow (D2 repaired: fix 320622f); the outstation session model '
-               'panics ONLY through D1 (OPERATE echo larger than the solicited buffer) or D3 (event-counter '
-               'underflow behind the opaque database interface), and its idle loop never needs a 4th '
-               'consecutive pass; plus the complete, regenerated panic-site inventory of the anchor files '
-               'with every site classified (decide). Search: the rawbytes engine against the real task',
- 'level_note': 'proof (partial): D1 and D3 are genuine defects of the unchanged tree (known findings with '
-               'replayed witnesses), D2 is repaired (regression corpus); trusted: Lean kernel, translate.py '
+               'the lazy iterators cannot overflow (D2 repaired: fix 320622f); on every trace from '
+               'construction the outstation session model panics ONLY through D1 (OPERATE echo larger than '
+               'the solicited buffer): the event-counter subtraction of unwritten_classes cannot underflow '
+               'on a database reachable from a fresh one (D3 repaired: counters_exact / no_counter_underflow), '
+               'and its idle loop never needs a 4th consecutive pass; plus the complete, regenerated '
+               'panic-site inventory of the anchor files with every site classified (decide). Search: the '
+               'rawbytes engine against the real task',
+ 'level_note': 'proof (partial): D1 is a genuine defect of the unchanged tree (known finding with replayed '
+               'witnesses), D2 and D3 are repaired (regression corpus); trusted: Lean kernel, translate.py '
                '+ gen_panic_sites.py, the hand classification, the correspondence harness; the Rust is '
                'modelled, not verified; master role covered by search only (engine master: no_panic / '
                'no_spin), no master no-panic theorem',
